@@ -11,7 +11,27 @@ using Cfg = hfsm2::Config::ManualActivation::RandomT<Rng>;
 using M = hfsm2::MachineT<Cfg>;
 #define S(s) struct s
 #define VM_UTILITY 1
-#ifdef VM_NESTED_UTIL
+#if defined(VM_HEADLESS_UTIL)
+// utilitarian region whose FIRST prong is a HEADLESS nested utilitarian region (UtilitarianPeers) next to a leaf: the anonymous
+// head defines nothing, so it must count like a state with the default utility() (1): the nested region is worth its best sub-state
+using FSM = M::PeerRoot< S(A), M::Utilitarian<S(U), M::UtilitarianPeers<S(V1), S(V2)>, S(U1)> >;
+#define VM_NS 7
+#define VM_NC 3
+#define VM_HAS_STUB(s) ((s) != 0 && (s) != 3)
+#include "tier_c/spec_types.hpp"
+static const VSpec VM_SPEC[VM_NS] = {
+  /*0  root*/ { -1, 0, K_COMPO, 2, ST_COMPOSITE,   0 },
+  /*1  A   */ {  0, 0, K_LEAF,  0, ST_NONE,       -1 },
+  /*2  U   */ {  0, 1, K_COMPO, 2, ST_UTILITARIAN, 1 },
+  /*3  (V) */ {  2, 0, K_COMPO, 2, ST_UTILITARIAN, 2 },
+  /*4  V1  */ {  3, 0, K_LEAF,  0, ST_NONE,       -1 },
+  /*5  V2  */ {  3, 1, K_LEAF,  0, ST_NONE,       -1 },
+  /*6  U1  */ {  2, 1, K_LEAF,  0, ST_NONE,       -1 },
+};
+#define VM_NCFG 4
+#include "tier_c/machine_common.hpp"
+struct A : St<1> {}; struct U : St<2> {}; struct V1 : St<4> {}; struct V2 : St<5> {}; struct U1 : St<6> {};
+#elif defined(VM_NESTED_UTIL)
 // utilitarian region whose FIRST prong is a nested utilitarian region, a leaf, and an orthogonal prong containing another utilitarian region
 // (utility of a nested region = head x chosen sub; orthogonal = head x mean)
 using FSM = M::PeerRoot< S(A), M::Utilitarian<S(U), M::Utilitarian<S(V), S(V1), S(V2)>, S(U1), M::Orthogonal<S(O), S(O1), M::Utilitarian<S(W), S(W1), S(W2)>>> >;
